@@ -1,0 +1,53 @@
+//! Verification-only observability (compiled only with
+//! `--cfg isographlabs_isograph_verif`): records which function identity
+//! registered each memo key, so a monitor can see two different `#[memo]`
+//! functions sharing one key. Purely additive; never changes behaviour.
+use std::{
+    collections::BTreeMap,
+    sync::{Mutex, OnceLock},
+};
+
+#[derive(Default)]
+pub struct MemoIdentities {
+    /// memo key -> every distinct identity (module path :: fn name) that used it
+    pub by_key: BTreeMap<u64, Vec<&'static str>>,
+    pub registrations: u64,
+}
+
+fn table() -> &'static Mutex<MemoIdentities> {
+    static TABLE: OnceLock<Mutex<MemoIdentities>> = OnceLock::new();
+    TABLE.get_or_init(|| Mutex::new(MemoIdentities::default()))
+}
+
+pub fn register_memo_identity(key: u64, identity: &'static str) {
+    let mut t = table().lock().unwrap_or_else(|e| e.into_inner());
+    t.registrations += 1;
+    let ids = t.by_key.entry(key).or_default();
+    if !ids.contains(&identity) {
+        ids.push(identity);
+    }
+}
+
+/// One line per key: `<key>\t<identity>[\t<identity>...]`.
+pub fn dump_memo_identities() -> String {
+    let t = table().lock().unwrap_or_else(|e| e.into_inner());
+    let mut out = String::new();
+    for (key, ids) in &t.by_key {
+        out.push_str(&format!("{key}\t{}\n", ids.join("\t")));
+    }
+    out
+}
+
+/// If `PICO_VERIF_DUMP` names a file, append the table to it.
+pub fn dump_memo_identities_to_env_file() {
+    if let Ok(path) = std::env::var("PICO_VERIF_DUMP") {
+        use std::io::Write;
+        if let Ok(mut f) = std::fs::OpenOptions::new()
+            .create(true)
+            .append(true)
+            .open(path)
+        {
+            let _ = f.write_all(dump_memo_identities().as_bytes());
+        }
+    }
+}
